@@ -19,6 +19,7 @@ RULE = (
     "{entry of update call g for every g in both stages (and one past the end = no fault), entry of frame write w for every w, middle of frame write w for every w} x {RuntimeError, "
     "KeyboardInterrupt}; output path explicit/None, pre-existing files at the path ({}, out.h5, out.h5+out-1.h5, out-1.h5, stale out.h5.tmp, stale .tmp next to a taken serial name) and "
     "pause_on_interrupt (answering 'n') are rotated over the grid; non-trivial = the stop happens at a step >= 1 with at least one frame already written"
+    "; plus the fresh-name rule for nine spellings of the requested path x {0,1,2} names taken, each under a 60 s alarm"
 )
 ASSUMPTIONS = [
     "faults are injected at the entry of TDGLSolver.update (instance wrapper), at the entry of DataHandler.save_time_step and in the middle of it (after the frame's group and first dataset were written; class attribute / module function patched inside the harness process)",
